@@ -67,3 +67,25 @@ From WG Require Import Flags.Props Links.LoadLinkStatements Links.LoadLinkFacts.
 Theorem C04_link_load_par : S_link_load_par.
 Proof. exact link_load_par. Qed.
 Print Assumptions C04_link_load_par.
+
+(** C10 o C04 o C12, the [--dcf] pipeline: the cutpoints [ParGraph::with_dcf] derives from
+    the graph's own degree cumulative function are legal for every [k > 0] and every degree
+    distribution, and the parallel compression over them loads back *)
+From WG Require Import Split.Model.
+Theorem C04_link_dcf_par_load : S_link_dcf_par_load.
+Proof. exact link_dcf_par_load. Qed.
+Print Assumptions C04_link_dcf_par_load.
+
+(** non-vacuity: trailing sinks, three parts, greedy selections per chunk, a text written *)
+Example C04_link_nonvacuous :
+  let f := mkFlags (mkCodes Gamma Unary Gamma Gamma (Zeta 3)) 3 2 0 in
+  let p := params_of_flags f in let cs := fl_codes f in
+  let g := [[10;20;30;40;50;60]; [10;20;30;40;50;61]; [10;20;30;40;50;62]; [1]; []; []] in
+  let cwf := dcf_of (scan g) in
+  let cuts := dcf_cuts cwf (nlen g) (last cwf 0) 3 in
+  let sels := map (fun '(c, s) => greedy_sel p cs c s) (combine cuts (segments cuts g)) in
+  (exists text, to_props false (mkStats 6 19 0) f = Some text)
+  /\ stats_for g (mkStats 6 19 0) /\ cuts = [0; 2; 4; 6]
+  /\ valid_sels p (segments cuts g) sels = true.
+Proof. cbv zeta. split; [eexists; vm_compute; reflexivity|].
+  split; [split; reflexivity|]. split; vm_compute; reflexivity. Qed.
